@@ -479,4 +479,5 @@ MatchesX(e, y) ==
 OutcomeMatchesX(e, out) ==
   /\ MatchesX(e, TopValue(out))
   /\ (out.err # "" => out.res.t = "blank")
+  /\ (out.err = "" => out.res.t # "err")       \* an error that reaches the top is reported under error, never as the result
 =============================================================================
